@@ -23,7 +23,7 @@
     in Model/Compile.v [print_play] and compared on every case, without a
     theorem). *)
 From Shk Require Import Base.Prelude Model.Storyline Model.Compile Model.Denote
-     Proofs.StorylineProofs Proofs.ScriptProofs Proofs.CompileProofs.
+     Proofs.StorylineProofs Proofs.StoryScriptProofs Proofs.CompileProofs.
 Open Scope Z_scope.
 
 (** validateStoryLine accepts exactly the well-formed clauses, and returns the
